@@ -422,9 +422,20 @@ def run(C, R):
                       and 'GenericChannel' in e['callee']]
             # the discard: a call of ChannelState::clear, or - when that was folded into the destructor - its drain loop
             # (the emptiness test of the buffer / a pop whose value is not delivered), after the close
-            clears = [i for i, e in enumerate(path.events) if e['k'] == 'call' and (
-                e['name'] == 'clear' or (e['name'] in ('is_empty', 'pop') and 'RingBuf' in e.get('callee', '')
-                                         and e.get('fn') == rd[0][3]['path']))]
+            # (whatever form it takes - clear(), the drain loop, or swapping the whole buffer out - it is the buffer
+            # access that follows the close)
+            close_end = 0
+            if closes:
+                eid0 = path.events[closes[0]].get('eid')
+                close_end = next((i for i, e in enumerate(path.events) if e['k'] == 'ret' and e.get('eid') == eid0),
+                                 closes[0])
+            clears = [i for i, e in enumerate(path.events) if i > close_end and (
+                (e['k'] == 'call' and (e['name'] == 'clear' or (e['name'] in ('is_empty', 'pop', 'len')
+                                                                 and 'RingBuf' in e.get('callee', ''))))
+                or (e['k'] in ('replace', 'write') and e.get('loc') and fields_of(e['loc'])[-1:] == ('buffer',)))]
+            if not closes:
+                clears = [i for i, e in enumerate(path.events) if e['k'] == 'call' and (
+                    e['name'] == 'clear' or (e['name'] in ('is_empty', 'pop') and 'RingBuf' in e.get('callee', '')))]
             subs = [e for e in path.events if e['k'] == 'call' and e['name'] == 'fetch_sub']
             last = any(const_of(E, path.facts, e['ret']) == 1 for e in subs)
             if last and not clears:
